@@ -36,6 +36,19 @@ CHECKS = {
     "C10": A(DIFF + " on the action log kept in the user state",
         "Every action kind assigned to rules, scripted decisions; the logged invocation sequence (rule, match_loc, match_(), peek) and token spans compared with the action-protocol model; sugar forms and their explicit spellings are compared with the same reference.",
         "DESIGN.md section 4, C10"),
+    "C02": A(DIFF + "; bounded-exhaustive enumeration of small regex trees",
+        "Every regex tree up to 4 (quick) / 5 (thorough) nodes over a 6-atom basis plus random larger trees (overlapping ranges, `_`, built-ins, `#`, variables) and the documented equivalent spellings, each on all 1,093 strings up to length 6 over {a,b,c} plus sampled lexemes; membership of every string decided by the generated lexer is compared with the reference language.",
+        "DESIGN.md section 4, C02"),
+    "C11": A("model-based testing of RangeMap operation sequences (bounded-exhaustive + proptest random with shrinking) against a point-wise model; plus generated class expressions through the real macro, classified per code point against the oracle's interval algebra",
+        "Part (a): every short operation sequence over a small universe and random long ones over the full scalar range, invariants and point-wise model equality after every operation. Part (b): random class expressions (sets, ranges, `_`, built-ins, `|`, chained `#`, variables, >9 pieces) in four compilation shapes, every boundary +-2 and random scalars classified.",
+        "DESIGN.md section 4, C11"),
+    "C13": A("exhaustive enumeration of all 1,112,064 scalar values through compiled lexers for every built-in name and membership-test shape; oracle = the Rust predicates",
+        "All scalar values x 20 names x (accept arms, alone, loop: table or guard chain, right-context function) plus forced other-shape variants (PUA union / windows); exhaustive in the code-point dimension. Recorded Unicode-version drift of 7 tables is a known finding keyed on exact code-point ranges.",
+        "DESIGN.md section 4, C13"),
+    "C18": ("exhaustive enumeration of boundary predicates + proptest random predicates handed to the repository's own generator function; oracle = independent run-length encoding over all scalar values",
+        "All 1,024 predicates defined by boundaries at 0, around the surrogate gap and at char::MAX, the 20 real predicates and random ones; output must be the unique maximal sorted range list with scalar end points.",
+        "Trusted: proptest, Rust char predicates, unicode-xid; the generator source is include!d unchanged (minus its inner attribute).",
+        "DESIGN.md section 4, C18"),
     "C14": ("proptest-generated definitions/inputs/scripts; metamorphic: the same case through all four constructors and three iterator types must give pairwise identical traces",
         "Pairwise equality of the six constructor variants' traces (tokens, full Locs, errors, action logs without match_()); no reference lexer involved.",
         "Trusted: rustc/cargo, proptest; the user state's Default impl hands the same state to `new`/`new_from_iter`.",
